@@ -6,7 +6,7 @@ from .core import (AnchorMissing, forward_aliases, assignments, calls, callee_ma
                    op_place, op_const, root_of, short, TRANSPARENT)
 
 HANDLER_RX = re.compile(
-    r"^fuel_vm::interpreter::executors::opcodes_impl::<impl fuel_vm::interpreter::executors::instruction::Execute<M, S, Tx, Ecal, V> for fuel_asm::op::(\w+)>::execute$")
+    r"^fuel_vm::interpreter::executors::opcodes_impl::<impl fuel_vm::interpreter::executors::instruction::Execute<M, S, Tx, Ecal, V> for fuel_asm::_?op::(\w+)>::execute$")
 
 REG_NAMES = {0: "ZERO", 1: "ONE", 2: "OF", 3: "PC", 4: "SSP", 5: "SP", 6: "FP", 7: "HP", 8: "ERR",
              9: "GGAS", 10: "CGAS", 11: "BAL", 12: "IS", 13: "RET", 14: "RETL", 15: "FLAG"}
@@ -146,7 +146,7 @@ def gas_accessors_called(f):
     out = []
     for i, c, args, dest, tgt, line in calls(f):
         nm = callee_name(c)
-        m = re.match(r"^fuel_tx::GasCostsValues::(\w+)$", nm)
+        m = re.match(r"^fuel_tx::[\w:]*GasCostsValues::(\w+)$", nm)
         if m:
             out.append((i, m.group(1), line))
     return out
